@@ -46,7 +46,7 @@ def gates(tier):
         "min_decided": {a: 150 * k for a in APIS[:4]} | {"cfg.materialize(n)": 20 * k},
         "shapes": {c: 3 * k for c in ["eps_rule", "nullable_cycle", "unary_cycle", "left_recursive", "duplicate_rule",
                                       "start_on_rhs", "finitely_ambiguous", "sr:Poly", "sr:Q", "sr:Boolean", "sr:MaxPlus",
-                                      "sr:Log", "sr:Real", "sr:MaxTimes", "long-member-strings", "negative-weights"]},
+                                      "sr:Log", "sr:Real", "sr:MaxTimes", "long-member-strings", "negative-weights", "gadget:zero-first-contribution"]},
         # no gate on tie events: on the repaired tree agenda priorities are injective (0 ties observed);
         # the tie-break policies only matter once a change makes priorities collide
         "min_events": {"heap.pop": 1000},
@@ -54,8 +54,32 @@ def gates(tier):
     }
 
 
+def zero_contribution_gadget(rng):
+    """Two rules of one head that share a body suffix (so they feed the same incomplete chart item), where the
+    first alternative's weight is exactly zero in floating point (underflow, or two derivations that cancel)
+    while the second is ordinary.  X -> A s | B s ; A, B -> the same terminal string."""
+    from fractions import Fraction as Fr
+
+    suffix = [rng.choice(["b", "B2"])] + (["c"] if rng.random() < 0.4 else [])
+    how = rng.choice(["underflow", "cancel"])
+    t = Fr(1, 10**200) if how == "underflow" else Fr(1, 4)
+    rules = [[Fr(1, 2), "S", ["X", "d"]], [t, "X", ["A"] + suffix], [Fr(1, 4), "X", ["B"] + suffix],
+             [t, "A", ["a"]], [Fr(1, 2), "B", ["a"]], [Fr(1, 2), "B2", ["b"]]]
+    if how == "cancel":
+        rules.append([-t, "A", ["a"]])
+    if rng.random() < 0.5:
+        rules.append([Fr(1, 8), "S", ["a", "S"]])
+    rng.shuffle(rules)
+    return {"g": {"S": "S", "V": ["a", "b", "c", "d"], "rules": rules}, "R": "Float" if how == "underflow" else rng.choice(["Float", "Real", "Q"]),
+            "maxlen": 3, "perm": rng.randrange(1 << 30), "rename": rng.choice([None, "int", "tuple", "str"]),
+            "underflow": how == "underflow", "gadget": "zero-first-contribution"}
+
+
 def gen_case(rng, spec):
     from rv.gen import grammars as GG
+
+    if rng.random() < 0.03:
+        return zero_contribution_gadget(rng)
 
     underflow = False
     big = rng.random() < 0.35
@@ -109,6 +133,8 @@ def run_case(case, ctx):
     g0, R = case["g"], case["R"]
     signed = any(w < 0 for w, _, _ in g0["rules"])
     an = GG.analyse(g0)
+    if case.get("gadget"):
+        ctx.shape["gadget:" + case["gadget"]] += 1
     cls = an["classes"]
     g = g0
     if case.get("perm") is not None:
